@@ -118,7 +118,7 @@ impl TailElem for f32 {
         self + 1.0
     }
     fn wsum(xs: &[Self]) -> Self {
-        xs.iter().sum()
+        xs.iter().fold(0.0, |s, v| s + *v)
     }
     fn wmax(xs: &[Self]) -> Self {
         xs.iter().copied().fold(f32::MIN, f32::max)
@@ -498,6 +498,30 @@ fn vecmath_tail(routine: &str, n: usize, place: Placement, lanes: usize) -> Resu
 
 /// Run one (routine, len) on the currently forced ISA.
 pub fn run_one(routine: &str, n: usize, place: Placement, f32_lanes: usize) -> Result<(), String> {
+    if routine == "selftest::stray_read" {
+        // detection-power self test: one element beyond the guarded side must fault
+        let g = GuardBuf::<f32>::new_at(n, place);
+        let p = g.as_slice().as_ptr();
+        let v = unsafe {
+            match place {
+                Placement::EndGuard => std::ptr::read_volatile(p.add(n)),
+                Placement::StartGuard => std::ptr::read_volatile(p.sub(1)),
+            }
+        };
+        return Err(format!("stray read returned {v} without a fault"));
+    }
+    if routine == "selftest::stray_write" {
+        // one byte written on the canary side must be noticed
+        let mut g = GuardBuf::<f32>::new_at(n, place);
+        let p = g.as_mut_slice().as_mut_ptr();
+        unsafe {
+            match place {
+                Placement::EndGuard => std::ptr::write_volatile((p as *mut u8).sub(1), 0),
+                Placement::StartGuard => std::ptr::write_volatile(p.add(n) as *mut u8, 0),
+            }
+        }
+        return canary(&g, "selftest");
+    }
     if let Some(r) = routine.strip_prefix("vecmath::") {
         return vecmath_tail(r, n, place, f32_lanes);
     }
